@@ -55,7 +55,7 @@ is_special_domain (const char *start, const char *end)
     char *ch = NULL;
     char label[LABEL_SIZE];
     size_t len = 0;
-    int count = 0;
+    size_t count = 0; /* labels: a name can have more dots than an int holds */
 
 
 #define CHECK(a,d) do { \
